@@ -142,6 +142,8 @@ func fitClass(x uint8) string {
 }
 
 func runC13(c *Ctx, r *Report) {
+	// the 16 slots start empty for every file: per-file decoder state (perfile.go)
+	perFileRule(c, r, "C13-R2-per-file-slots", []string{"defmsgs"}, "a data record of a local type the file never defined is decoded with the previous file's definition instead of being an error")
 	// ---- R1: dispatch partition ----------------------------------------------------------
 	fn := c.ssaFn(c.fn(c.fit, "decoder.decodeFileData"))
 	if fn == nil {
